@@ -86,13 +86,14 @@ QUICK = ["BD:w1", "BD:w3", "11:w0", "BC:w3", "XX:w1", "BD:wc", "BD:flags", "BD:v
 
 LAYOUTS = ["n%d:f%X:p%d:m%d" % (n, f, p, m) for n in (1, 2) for f in range(16) for (p, m) in ((0, 0), (1, 0), (0, 1), (1, 2))]
 LAYOUTS += ["n0:f0:p0:m0", "n1:fD:p1:m3", "n1:fD:p0:m15", "n2:f8:p0:m8", "n2:f1:p1:m7", "n3:fD:p1:m1", "n1:f8:p1:m0:L80", "n1:f8:p0:m0:L0", "n2:f2:p0:m1:L0"]
-QUICK_LAYOUTS = ["n0:f0:p0:m0", "n1:fD:p1:m3", "n1:fD:p0:m15", "n2:f8:p0:m8", "n2:fF:p1:m2", "n2:f0:p0:m1", "n1:f8:p1:m0:L80", "n2:f2:p0:m1:L0", "n1:f5:p0:m0"]
+QUICK_LAYOUTS = ["n2:f0:p0:m0", "n1:f0:p1:m0", "n0:f0:p0:m0", "n1:fD:p1:m3", "n1:fD:p0:m15", "n2:f8:p0:m8", "n2:fF:p1:m2", "n2:f0:p0:m1", "n1:f8:p1:m0:L80", "n2:f2:p0:m1:L0", "n1:f5:p0:m0"]
 
 HARNESSES = [
     {"fn": "h_field", "cases": CASES, "quick_cases": QUICK, "timeout": {"quick": 60, "thorough": 300}},
     {"fn": "h_layout", "cases": LAYOUTS, "quick_cases": QUICK_LAYOUTS, "timeout": {"quick": 60, "thorough": 300}},
     {"fn": "h_registry", "cases": ["BD", "BD:small6", "BD:small9", "11", "BC", "11:afterBD", "BD:after11"], "quick_cases": ["BD", "11", "BC", "11:afterBD"], "timeout": {"quick": 60, "thorough": 300}},
     {"fn": "h_procedure", "cases": ["O", "B"], "timeout": {"quick": 60, "thorough": 300}},
+    {"fn": "h_two_srcs", "cases": ["PS-SS", "SS-PS:wc5"], "timeout": {"quick": 60, "thorough": 300}},
 ]
 BOUNDS = {"fields": "one field symbolic per run (all values): version, 7 flag bits, word count 1..9, each of the 8 hex words "
                     "(32 bit), 2-character windows of the 32-byte reference code, callout priority / FRU type / text fields / "
@@ -515,3 +516,30 @@ def h_procedure() -> bool:
     else:
         conds.append(me.get("Description") == exp)
     return verdict(sym_all(conds), obs={"callout": me})
+
+
+def h_two_srcs() -> bool:
+    """
+    post: _
+    """
+    # a second SRC decoded after another one in the same process shows ITS words, format, CCIN and status bits
+    first_sid, rest = CASE.split("-")
+    second_sid = rest.split(":")[0]
+    wc2 = 5 if rest.endswith("wc5") else 9
+    x = sym_int("x", 0, 0xFFFFFFFF)
+    y = sym_int("y", 0, 0xFFFFFFFF)
+    w1 = (0x020000F0, 0x2B2C0000, 0x11223344, 0x21000000, 0xAABBCCDD, 0x12345678, 0x9ABCDEF0, 0x0F1E2D3C)
+    w2 = [0x020000E1, x, 0x55667788, y, 0x01020304, 0x05060708, 0x090A0B0C, 0x0D0E0F10]
+    a = pb.flat(pb.SRC(sid=first_sid, words=w1, ascii=b"BD8D1111"))
+    b = mkbytes(pb.flat(pb.SRC(sid=second_sid, words=w2, ascii=b"BD8D2222", wc=wc2)))
+    try:
+        decode(a)
+        nm, out, used = decode(b)
+    except Exception as e:
+        return verdict(False, obs={"exception": repr(e)})
+    conds = [numval_eq(out["Hex Word 2"], w2[0], 16), numval_eq(out["Hex Word 3"], x, 16), numval_eq(out["Hex Word 5"], y, 16),
+             numval_eq(out["SRC Format"], 0xE1, 16), numval_eq(out["Backplane CCIN"], from_be(be(x, 4)[:2]), 16),
+             out["Terminate FW Error"] == bool_text(bit_set(y, 29)), out["Deconfigured"] == bool_text(bit_set(y, 25)),
+             out["Guarded"] == bool_text(bit_set(y, 24)), out["Reference Code"] == "BD8D2222",
+             ("Hex Word 9" in out) == (wc2 == 9), ("Hex Word 6" in out) == (wc2 == 9)]
+    return verdict(sym_all(conds), obs={"out": out})
